@@ -538,6 +538,9 @@ pub enum Framing {
     Ch { splits: Vec<usize>, exts: Vec<Vec<u8>>, last_ext: Vec<u8>, trailers: Vec<(Vec<u8>, Vec<u8>)> },
     /// no body headers at all (GET)
     None,
+    /// `Transfer-Encoding: chunked` followed by these bytes as they are: a framing the
+    /// chunked coding does not allow (the payload of such a request is the raw bytes)
+    BadCh,
 }
 
 /// Mirrors `Extract.chunk` in the Lean model.
@@ -593,7 +596,7 @@ impl Req {
     /// The body bytes as they go on the wire.
     pub fn wire_body(&self) -> Vec<u8> {
         match &self.framing {
-            Framing::Cl | Framing::None => self.payload.clone(),
+            Framing::Cl | Framing::None | Framing::BadCh => self.payload.clone(),
             Framing::Ch { splits, exts, last_ext, trailers } => {
                 chunk_encode(&self.payload, splits, exts, last_ext, trailers)
             }
@@ -613,7 +616,7 @@ impl Req {
         }
         match &self.framing {
             Framing::Cl => v.extend_from_slice(format!("content-length: {}\r\n", self.payload.len()).as_bytes()),
-            Framing::Ch { .. } => v.extend_from_slice(b"transfer-encoding: chunked\r\n"),
+            Framing::Ch { .. } | Framing::BadCh => v.extend_from_slice(b"transfer-encoding: chunked\r\n"),
             Framing::None => {}
         }
         v.extend_from_slice(b"\r\n");
@@ -624,6 +627,7 @@ impl Req {
         match &self.framing {
             Framing::Cl => "cl".to_string(),
             Framing::None => "nb".to_string(),
+            Framing::BadCh => "bc".to_string(),
             Framing::Ch { splits, exts, last_ext, trailers } => {
                 let s = if splits.is_empty() {
                     "_".to_string()
@@ -886,7 +890,7 @@ pub fn h2_batch(rt: &tokio::runtime::Runtime, addr: std::net::SocketAddr, reqs: 
                 b = b.header("content-type", ct.as_slice());
             }
             let body: Bx = match &rq.framing {
-                Framing::None => http_body_util::Empty::<bytes::Bytes>::new().boxed(),
+                Framing::None | Framing::BadCh => http_body_util::Empty::<bytes::Bytes>::new().boxed(),
                 Framing::Cl => http_body_util::Full::new(bytes::Bytes::from(rq.payload.clone())).boxed(),
                 Framing::Ch { splits, .. } => {
                     let mut frames: Vec<Result<hyper::body::Frame<bytes::Bytes>, std::convert::Infallible>> = Vec::new();
@@ -956,6 +960,8 @@ pub fn h2_expressible(rq: &Req) -> bool {
         .unwrap_or(true);
     let plain_chunks = match &rq.framing {
         Framing::Ch { exts, last_ext, trailers, .. } => exts.iter().all(|e| e.is_empty()) && last_ext.is_empty() && trailers.is_empty(),
+        // HTTP/2 has no chunked coding to get wrong
+        Framing::BadCh => false,
         _ => true,
     };
     ok_target && ok_ct && plain_chunks
